@@ -3,13 +3,17 @@
    non-seed state is one case.  The invariants check the contract itself.
 
    Plan is a sequence of enumeration jobs
-       [fam, n, allkinds, maxext, stride, offset]
+       [fam, n, allkinds, maxext, stride, offset, d, t]
    fam = "dag" : every DAG on 1..n in canonical numbering x every assignment of
                  node kinds  "t" (task) / "p" (plain: data if it has no dependency,
                  alias or list otherwise)
    fam = "ext" : the same x every non-empty set of at most maxext references
                  from task nodes to the external keys n+1, n+2
    fam = "cyc" : every cyclic digraph on 1..n (self-loops included) x kinds
+   fam = "nest": the shapes da.store / lists of delayed objects produce: keys 1..d are
+                 literal data roots, d+1..d+t tasks without dependencies, the remaining
+                 n-d-t keys non-task list nodes, each referring to 2 or 3 EARLIER keys
+                 (data roots, tasks, earlier list nodes: nested lists over shared roots)
    allkinds = FALSE restricts the kinds to all-task and all-plain;
    (stride, offset) = (1, 0) enumerates every graph code, otherwise only the codes
    gc with gc % stride = offset (a declared sample, used above the exhaustive bound). *)
@@ -33,19 +37,31 @@ Export(c) == ToJson([c |-> c, e |-> [dag |-> IsDag(G(c))]])
 \* Two-level enumeration so that TLC's workers share the work: an initial "seed" state
 \* per (job, slice); its successors are the cases of that slice.  Seeds export nothing.
 Slices == 16
-NumCodes(j) == IF j.fam = "cyc" THEN NumDigraphCodes(j.n) ELSE NumDagCodes(j.n)
-CodesOf(j, s) == { gc \in { q * j.stride + j.offset : q \in { x \in 0..(NumCodes(j) \div j.stride) : x % Slices = s } } :
-                     gc < NumCodes(j) }
+\* "nest": the rows of the d+t dependency-free keys are the low bits of a DAG code (PairIndex); the codes of
+\* the family number only the remaining bits (a 9-key DAG code would not fit TLC's 32-bit integers)
+LowBits(j)  == ((j.d + j.t) * (j.d + j.t - 1)) \div 2
+NumCodes(j) == CASE j.fam = "cyc"  -> NumDigraphCodes(j.n)
+                 [] j.fam = "nest" -> 2 ^ ((j.n * (j.n - 1)) \div 2 - LowBits(j))
+                 [] OTHER          -> NumDagCodes(j.n)
+CodesOf(j, s) == { c \in { x * j.stride + j.offset : x \in { y \in 0..(NumCodes(j) \div j.stride) : y % Slices = s } } :
+                     c < NumCodes(j) }
+NestOfCode(j, c) == [i \in 1..j.n |-> IF i <= j.d + j.t THEN {}
+                                      ELSE { k \in 1..(i - 1) : Bit(c, PairIndex(i, k) - LowBits(j)) = 1 }]
+NestKinds(j) == [i \in 1..j.n |-> IF i <= j.d THEN "p" ELSE IF i <= j.d + j.t THEN "t" ELSE "p"]
+NestOK(j, g) == \A i \in (j.d + j.t + 1)..j.n : Cardinality(g[i]) \in 2..3
 
 Init == \E p \in DOMAIN Plan : \E s \in 0..(Slices - 1) :
           /\ case = [fam |-> "seed", p |-> p, s |-> s]
           /\ out = ""
 
 Gen(j, s) ==
-  \E gc \in CodesOf(j, s) : \E kc \in KindCodes(j) :
+  \E gc \in CodesOf(j, s) : \E kc \in (IF j.fam = "nest" THEN {0} ELSE KindCodes(j)) :
     LET n == j.n
         kinds == KindsOfCode(n, kc) IN
-    CASE j.fam = "dag" -> /\ case' = [fam |-> "dag", n |-> n, deps |-> DagOfCode(n, gc), kinds |-> kinds]
+    CASE j.fam = "nest" -> /\ NestOK(j, NestOfCode(j, gc))
+                           /\ case' = [fam |-> "nest", n |-> n, deps |-> NestOfCode(j, gc), kinds |-> NestKinds(j)]
+                           /\ out' = Export(case')
+      [] j.fam = "dag" -> /\ case' = [fam |-> "dag", n |-> n, deps |-> DagOfCode(n, gc), kinds |-> kinds]
                           /\ out' = Export(case')
       [] j.fam = "ext" -> \E X \in ExtSets(n, kinds, j.maxext) :
                           /\ case' = [fam |-> "ext", n |-> n, deps |-> WithExt(DagOfCode(n, gc), X), kinds |-> kinds]
@@ -78,7 +94,10 @@ ExternalRejected == (IsCase /\ IsDag(G(case))) =>
                       /\ (case.n >= 2 => ~OrderOK(G(case), [Canonical(case) EXCEPT ![2] = <<2, 0>>]))
 \* the enumeration is what it claims to be
 FamilyShape == IsCase =>
-               /\ (case.fam \in {"dag", "ext"} => IsDag(G(case)))
+               /\ (case.fam \in {"dag", "ext", "nest"} => IsDag(G(case)))
+               /\ (case.fam = "nest" => \A k \in 1..case.n :
+                                          IF case.kinds[k] = "t" THEN G(case)[k] = {}
+                                          ELSE Cardinality(G(case)[k]) \in {0, 2, 3})
                /\ (case.fam = "cyc" => HasCycle(G(case)))
                /\ (case.fam = "ext" => External(G(case)) # {})
                /\ (case.fam # "ext" => External(G(case)) = {})
